@@ -284,7 +284,7 @@ void decompressDataSeries_float_1D(float** data, size_t dataSeriesLength, float*
 	}
 	
 #ifdef HAVE_TIMECMPR	
-	if(confparams_dec->szMode == SZ_TEMPORAL_COMPRESSION)
+	if(confparams_dec->szMode == SZ_TEMPORAL_COMPRESSION && hist_data != NULL) //the point-wise relative decoders call this without a history
 		memcpy(hist_data, (*data), dataSeriesLength*sizeof(float));
 #endif	
 	
@@ -600,7 +600,7 @@ void decompressDataSeries_float_2D(float** data, size_t r1, size_t r2, float* hi
 	}
 
 #ifdef HAVE_TIMECMPR	
-	if(confparams_dec->szMode == SZ_TEMPORAL_COMPRESSION)
+	if(confparams_dec->szMode == SZ_TEMPORAL_COMPRESSION && hist_data != NULL) //the point-wise relative decoders call this without a history
 		memcpy(hist_data, (*data), dataSeriesLength*sizeof(float));
 #endif	
 
@@ -1140,7 +1140,7 @@ void decompressDataSeries_float_3D(float** data, size_t r1, size_t r2, size_t r3
 	}
 	
 #ifdef HAVE_TIMECMPR	
-	if(confparams_dec->szMode == SZ_TEMPORAL_COMPRESSION)
+	if(confparams_dec->szMode == SZ_TEMPORAL_COMPRESSION && hist_data != NULL) //the point-wise relative decoders call this without a history
 		memcpy(hist_data, (*data), dataSeriesLength*sizeof(float));
 #endif		
 
@@ -1807,10 +1807,8 @@ void decompressDataSeries_float_1D_MSST19(float** data, size_t dataSeriesLength,
 		//printf("%.30G\n",(*data)[i]);
 	}
 	
-#ifdef HAVE_TIMECMPR	
-	if(confparams_dec->szMode == SZ_TEMPORAL_COMPRESSION)
-		memcpy(multisteps->hist_data, (*data), dataSeriesLength*sizeof(float));
-#endif	
+	//no history refresh: a point-wise relative step is never the reference of a temporal prediction, and this decoder is not given
+	//the variable's history (the global 'multisteps' belongs to the compressor and is unset or stale in a reader)
 	free(precisionTable);
 	free(leadNum);
 	free(type);
@@ -2128,10 +2126,8 @@ void decompressDataSeries_float_2D_MSST19(float** data, size_t r1, size_t r2, Ti
 		}
 	}
 
-#ifdef HAVE_TIMECMPR	
-	if(confparams_dec->szMode == SZ_TEMPORAL_COMPRESSION)
-		memcpy(multisteps->hist_data, (*data), dataSeriesLength*sizeof(float));
-#endif	
+	//no history refresh: a point-wise relative step is never the reference of a temporal prediction, and this decoder is not given
+	//the variable's history (the global 'multisteps' belongs to the compressor and is unset or stale in a reader)
 
 	free(precisionTable);
 	free(leadNum);
@@ -2686,10 +2682,8 @@ void decompressDataSeries_float_3D_MSST19(float** data, size_t r1, size_t r2, si
 		}
 	}
 	
-#ifdef HAVE_TIMECMPR	
-	if(confparams_dec->szMode == SZ_TEMPORAL_COMPRESSION)
-		memcpy(multisteps->hist_data, (*data), dataSeriesLength*sizeof(float));
-#endif		
+	//no history refresh: a point-wise relative step is never the reference of a temporal prediction, and this decoder is not given
+	//the variable's history (the global 'multisteps' belongs to the compressor and is unset or stale in a reader)
 
 	free(precisionTable);
 	free(leadNum);
